@@ -19,7 +19,16 @@ import time
 REPO = os.environ.get('VERIF_REPO', '/repo')
 VERIF = os.path.dirname(os.path.dirname(os.path.abspath(__file__)))
 CACHE = os.path.join(VERIF, '.cache', 'mir')
-SCRATCH = os.environ.get('VERIF_SCRATCH', '/var/tmp/bigdecimal-verif')
+ALT_REPO = os.path.realpath(REPO) != '/repo'
+if ALT_REPO:
+    # a scratch worktree given through VERIF_REPO (seed testing): its own scratch directory, cache and crate copies, so
+    # that nothing built from it can be picked up by a run against /repo
+    import hashlib as _hl
+    _tag = _hl.sha256(os.path.realpath(REPO).encode()).hexdigest()[:10]
+    SCRATCH = os.environ.get('VERIF_SCRATCH', '/var/tmp/bigdecimal-verif') + '-alt-' + _tag
+    CACHE = os.path.join(SCRATCH, 'mir-cache')
+else:
+    SCRATCH = os.environ.get('VERIF_SCRATCH', '/var/tmp/bigdecimal-verif')
 
 
 def source_files(repo=None):
